@@ -277,7 +277,28 @@ def r04_4(prog, out):
             out.violation(key + ":armed-on-first", bi.loc(sleep_br.origin.data), "the expiry timer is armed on a shifted instant (%s)" % arith[0].split("::")[-1])
         else:
             out.holds(key + ":armed-on-first", bi.loc(sleep_br.origin.data), "sleep_until(first deadline of the schedule)")
-    if notif_br:
+    # How does a change of the schedule reach a timer that is already waiting?  Either the wait can be interrupted (Notify),
+    # or it cannot be waiting at all while the schedule changes: the poll future borrows the tracker exclusively (&mut self)
+    # and the actor builds a fresh one -- which re-reads the earliest deadline -- every time it goes back to waiting.
+    exclusive_rearm = False
+    pb = prog.facts.body(bi.body.root or bid)
+    takes_mut = pb is not None and pb.arg_count >= 1 and (pb.local_ty(1) or "").startswith("&mut ")
+    for cid in prog.cone(R.sub_actor.loop, follow=("call", "closure", "poll")):
+        ci = prog.info(cid)
+        for x in (ci.awaits if ci else []):
+            if x.select is None:
+                continue
+            for br in x.select.branches:
+                if prog.body_of_type(ci.body, br.fut_ty) != bid or br.origin is None or br.origin.kind != "call":
+                    continue
+                made_at = br.origin.data
+                loops_wait = set(ci.cfg.in_loop(x.poll_bb))
+                if takes_mut and loops_wait and loops_wait <= set(ci.cfg.in_loop(made_at)):
+                    exclusive_rearm = True
+    if exclusive_rearm:
+        out.holds(key + ":rearm-signal", bi.loc(a.poll_bb), "the poll future holds `&mut` on the tracker and is rebuilt in every iteration of the actor loop: the "
+                  "schedule cannot change while a timer waits, and each new wait starts from the current earliest deadline")
+    elif notif_br:
         o = notif_br[0].origin
         ok = o is not None and o.kind == "call" and R.t_notify in prog.receiver_origin(bi, bi.call_at(o.data).args[0]).cells()
         if ok:
@@ -304,7 +325,9 @@ def r04_4(prog, out):
             continue
         nots = [e for e in effs if not e.chain and e.touches(R.t_notify) and e.kind == "notify_waiters"]
         k = "mutator-notifies:%s" % prog.short(mid)
-        if nots:
+        if exclusive_rearm:
+            out.holds(k, prog.loc(mid), "runs only while no timer waits (exclusive borrow); the next wait re-reads the schedule" + ("; also notifies" if nots else ""), nontrivial=False)
+        elif nots:
             out.holds(k, prog.loc(mid), "can re-arm the timer (notify_waiters on the tracker's Notify)")
         else:
             out.violation(k, prog.loc(mid), "%s changes the expiry schedule but never notifies the timer task: a new earliest deadline is not picked up" % prog.short(mid))
